@@ -1133,6 +1133,13 @@ SMALL_SIMPLE = [
 ]
 
 
+SAME_TWICE = [(['grid', 2, 2], ['grid', 2, 2, 'addedges', 1]),
+              (['torus', 3, 3], ['torus', 3, 3, 'splitedges', 1]),
+              (['complete', 3], ['complete', 3, 'splitedges', 1]),
+              (['empty', 3], ['empty', 3, 'plantclique', 2]),
+              (['grid', 3, 1], ['grid', 3, 1, 'plantclique', 3])]
+
+
 @register
 class _Iso(Sub):
     """iso G1 [-e G2]: G1 alone: nontrivial automorphisms; G1 -e G2: isomorphism"""
@@ -1152,6 +1159,13 @@ class _Iso(Sub):
         yield 'G1-e-G2', [], [_file('simple', 'S0', 'gml'), _file('simple', 'S0', 'kthlist', True)], None
         yield 'G1', [], [_file('simple', 'S0', 'kthlist')], None
         yield 'G1-e-G2', [], [_stdin('simple', 'S3', 'dimacs'), _file('simple', 'S3', 'gml', True)], None
+        # the same construction twice on one command line, one of them edited
+        # by a modifier: two graph arguments are two graphs
+        for plain, edited in SAME_TWICE:
+            yield 'G1-e-G2', [], [_cons('simple', plain, 'saved', 'gml', True),
+                                  _cons('simple', edited, 'saved', 'kthlist', False)], None
+            yield 'G1-e-G2', [], [_cons('simple', edited, 'saved', 'kthlist', True),
+                                  _cons('simple', plain, 'saved', 'dimacs', False)], None
 
     def sweep(self, tier):
         for g in SIMPLE_MORE:
@@ -1183,6 +1197,11 @@ class _Subgraph(Sub):
                 if g1 is SMALL_SIMPLE[0] or g2 is SMALL_SIMPLE[1]:
                     yield 'HG', [], [g1, g2], None
         yield 'GH', [], [_stdin('simple', 'S2', 'gml'), _file('simple', 'S4', 'dimacs')], None
+        for plain, edited in SAME_TWICE[:3]:
+            yield 'GH', [], [_cons('simple', plain, 'saved', 'gml', True),
+                             _cons('simple', edited, 'saved', 'kthlist', False)], None
+            yield 'GH', [], [_cons('simple', edited, 'saved', 'dimacs', False),
+                             _cons('simple', plain, 'saved', 'kthlist', True)], None
 
     def sweep(self, tier):
         for g in SIMPLE_MORE:
